@@ -27,14 +27,15 @@ from vlib.runner import register_chemicals
 
 PROPERTY = 'C07'
 RULE = ('Five generated families. db: one of 34 database chemicals with complete Cn/Tm/Tb/Hvap/Hfus data x '
-        'phase_ref in {s,l,g} (Chemical(name, phase_ref=..)) or phase-locked (Chemical(name, phase=..)), an evaluated '
+        'phase_ref in {s,l,g} (Chemical(name, phase_ref=..)) or phase-locked (Chemical(name, phase=..) or at_state(.., copy=True)), an evaluated '
         'phase, one clause (reference state / T-difference vs quad of Cn / central difference / pressure term / jump at Tb / '
         'jump at Tm), T inside the Cn model range of that phase, P = 10**u Pa, u in [3,7]. syn: Chemical.blank + add_model with '
         'random positive Cn_s/Cn_l/Cn_g of the forms const, a+bT, a+bT+cT^2, a+d/T (with or without analytic integrals), '
         'random Tm, Tb on either side of T_ref (Tb<Tm allowed), Hvap(T)=A-BT, Hfus, Sfus=Hfus/Tm, S0, every phase_ref incl. '
-        'automatic, built directly or through the phase_ref/S0/Tb setters, or phase-locked; H and S at a random (phase,T,P), at the '
+        'automatic, built directly or through the phase_ref/S0/Tb setters, phase-locked at construction or later with at_state; H and S at a random (phase,T,P), at the '
         'reference state and on both sides of Tb/Tm are compared with closed-form path integrals. mixH / mixS: IdealMixture over '
-        '1-5 database or synthetic chemicals with independent reference phases/locks, flows 0 or 10**u; H, Cn, S against '
+        '1-5 database or synthetic chemicals with independent reference phases/locks (mixS: 80% of cases with all database '
+        'chemicals on one side of the melting point, outside finding C07-F1), phase in s,l,g,L,S, flows 0 or 10**u; H, Cn, S against '
         'mole-weighted pure values, homogeneity, multi-phase xH/xS/xCn and the ideal mixing term. stream: 2-4 streams of one '
         'phase at equal T,P mixed with Stream.mix_from (Stream or MultiStream), S_out >= sum S_in and the exact mixing-entropy '
         'increase. Non-trivial: evaluated phase differs from the reference phase, or >= 2 components present. Distinct by '
@@ -48,12 +49,13 @@ ASSUMPTIONS = ['R is thermosteam.constants.R (asserted within 1e-6 of a CODATA v
 REQUIRED_CELLS = {'quick': ['db:ref', 'db:dT', 'db:deriv', 'db:dP', 'db:jump_vap', 'db:jump_fus', 'db:locked',
                             'db:ref=s', 'db:ref=l', 'db:ref=g', 'syn:ref=s', 'syn:ref=l', 'syn:ref=g', 'syn:locked',
                             'syn:Tb<Tm', 'mix:n>=2', 'mix:n=1', 'mix:multi', 'stream:distinct', 'stream:same',
-                            'stream:kind=M'],
+                            'stream:kind=M', 'syn:mode=at_state', 'syn:mode=ref_setter', 'syn:mode=S0_setter',
+                            'syn:mode=Tb_setter', 'db:lock.how=at', 'db:lock.how=lock'],
                   'thorough': []}
 
 T_REF = 298.15
 P_REF = 101325.0
-R = 8.314462618
+R = tmo.constants.R        # DESIGN Appendix A: the library's own constant; validated in setup()
 
 DB_NAMES = ('Water', 'Ethanol', 'Methanol', 'Propanol', 'Acetone', 'Hexane', 'Glycerol', 'AceticAcid', 'Benzene',
             'Toluene', 'Octane', 'Butanol', 'Isopropanol', 'N2', 'O2', 'CO2', 'Methane', 'Propane', 'Butane', 'Ammonia',
@@ -65,11 +67,9 @@ PHASES = ('s', 'l', 'g')
 def setup(ctx):
     # DESIGN Appendix A: R is the library's own constant, which must be a CODATA value
     # (2014: 8.3144598, 2018: 8.314462618); the identities do not depend on its last digits.
-    global R
     if min(abs(tmo.constants.R - 8.314462618), abs(tmo.constants.R - 8.3144598)) > 1e-6:
         from vlib.runner import HarnessError
         raise HarnessError(f'thermosteam.constants.R = {tmo.constants.R!r}')
-    R = tmo.constants.R
 
 
 # ---------------------------------------------------------------------------
@@ -87,6 +87,8 @@ def db_chemical(name, variant):
             c = tmo.Chemical(name)
         elif variant.startswith('lock:'):
             c = tmo.Chemical(name, phase=variant[5:])
+        elif variant.startswith('at:'):
+            c = tmo.Chemical(name).at_state(variant[3:], copy=True)
         else:
             c = tmo.Chemical(name, phase_ref=variant)
         _db_cache[key] = c
@@ -183,7 +185,11 @@ def prop_db(ch, ctx):
     locked = ch.int('locked', 0, 3) == 0
     if locked:
         ph = ch.choice('phase', PHASES)
-        c = ctx.call('build', db_chemical, name, 'lock:' + ph, region=f'src=db,lock=1,ph={ph}')
+        how = ch.choice('lock.how', ('lock:', 'lock:', 'at:'))     # constructor phase=..  or  at_state(.., copy=True)
+        c = ctx.call('build', db_chemical, name, how + ph, region=f'src=db,lock=1,ph={ph},how={how[:-1]}')
+        if c.locked_state != ph or c.phase_ref != ph:
+            ctx.fail(f'build|src=db,lock=1,ph={ph},how={how[:-1]}|not-locked', f'{name}: locked_state={c.locked_state} phase_ref={c.phase_ref}')
+        ctx.cell('db:lock.how=' + how[:-1])
         pr = c.phase_ref
         clause = ch.choice('clause', ('ref', 'dT', 'deriv', 'dP'))
     else:
@@ -233,6 +239,7 @@ def prop_db(ch, ctx):
         if dH is None or Tt is None:
             ctx.reject('no transition data')
         Pj = P if ch.bool('jump.P_any') else P_REF
+        ctx.nontriv(['db', clause, name, pr])
         h_hi = ctx.call('H.' + site, H_of, c, hi_ph, Tt, Pj, region=rg)
         h_lo = ctx.call('H.' + site, H_of, c, lo_ph, Tt, Pj, region=rg)
         sc = abs(h_hi) + abs(h_lo) + abs(dH) + 1.0
@@ -246,7 +253,6 @@ def prop_db(ch, ctx):
         ctx.metric_max(site + ':S_rel', abs(s_hi - s_lo - dS) / sc)
         ctx.check(close(s_hi - s_lo, dS, 1e-11, sc), f'S.{site}|{rg}|mismatch',
                   f'{name} ref={pr}: S_{hi_ph}-S_{lo_ph} at {Tt} K = {s_hi - s_lo!r}, expected {dS!r}')
-        ctx.nontriv(['db', clause, name, pr])
         return
 
     # clauses evaluated in one phase
@@ -260,6 +266,7 @@ def prop_db(ch, ctx):
     if hi - lo < 1.0:
         ctx.reject('empty model range')
     specials = (T_REF, c.Tb, c.Tm)
+    if ph != pr or locked: ctx.nontriv(['db', clause, name, pr, ph, locked])
 
     if clause == 'dP':
         T = draw_T(ch, 'T', lo, hi, specials)
@@ -275,7 +282,6 @@ def prop_db(ch, ctx):
             ctx.metric_max('dP:S_rel', abs(s2 - s1 - want) / sc)
             ctx.check(close(s2 - s1, want, 1e-12, sc), f'S.dP|{rg}|mismatch',
                       f'{name} ref={pr}: S_g(P2)-S_g(P1) = {s2 - s1!r}, -R ln(P2/P1) = {want!r}')
-        if ph != pr or locked: ctx.nontriv(['db', 'dP', name, pr, ph, locked])
         return
 
     if clause == 'dT':
@@ -315,7 +321,6 @@ def prop_db(ch, ctx):
             ctx.fail(f'S.dT|{rg},hp={int(res > 0)}|{kind}',
                      f'{name} ref={pr} {ph}: S({T2})-S({T1}) = {s2 - s1!r}, quad(Cn/T) = {IS * sgn!r} '
                      f'({m.method}, grid spacing of the S integral {res!r})')
-        if ph != pr or locked: ctx.nontriv(['db', 'dT', name, pr, ph, locked])
         return
 
     if clause == 'deriv':
@@ -354,7 +359,6 @@ def prop_db(ch, ctx):
             ctx.fail(f'S.deriv|{rg},hp={int(res > 0)}|{kind}',
                      f'{name} ref={pr} {ph}: dS/dT at {T} = {dS!r}, Cn/T = {cn / T!r} '
                      f'({m.method}, grid spacing of the S integral {res!r})')
-        if ph != pr or locked: ctx.nontriv(['db', 'deriv', name, pr, ph, locked])
         return
 
 
@@ -433,7 +437,7 @@ def draw_syn(ch, tag='syn', allow_lock=True, allow_modes=True):
         for p in PHASES:
             kinds[p], forms[p] = draw_cn(ch, tag + '.Cn_' + p)
         pr_req = ch.choice(tag + '.phase_ref', ('s', 'l', 'g', None))
-        mode = ch.choice(tag + '.mode', ('ctor', 'ctor', 'ref_setter', 'S0_setter', 'Tb_setter')) if allow_modes else 'ctor'
+        mode = ch.choice(tag + '.mode', ('ctor', 'ctor', 'ref_setter', 'S0_setter', 'Tb_setter', 'at_state')) if allow_modes else 'ctor'
     spec = dict(Tm=Tm, Tb=Tb, Hfus=Hfus, Sfus=Hfus / Tm, S0=S0, A=A, B=B, lock=lock, how=how, kinds=kinds,
                 forms=forms, pr_req=pr_req, mode=mode)
     if mode == 'ref_setter':
@@ -442,6 +446,8 @@ def draw_syn(ch, tag='syn', allow_lock=True, allow_modes=True):
         spec['Tb_first'] = ch.float(tag + '.Tb0', 40.0, 1200.0)
     if mode == 'S0_setter':
         spec['S0_first'] = ch.float(tag + '.S0_0', 0.0, 600.0)
+    if mode == 'at_state':
+        spec['lock_later'] = ch.choice(tag + '.at_state', PHASES)
     return spec
 
 
@@ -470,6 +476,9 @@ def build_syn(spec, ID='Syn'):
         c.Tb = Tb
     elif mode == 'S0_setter':
         c.S0 = S0
+    elif mode == 'at_state':
+        c.at_state(spec['lock_later'])       # locks in place; the reference phase becomes the locked phase
+        spec['lock'] = spec['lock_later']
     return c
 
 
@@ -519,7 +528,8 @@ def prop_syn(ch, ctx):
     rg0 = f'src=syn,req={spec["pr_req"]},lock={lock},mode={spec["mode"]}'
     c = ctx.call('build', build_syn, spec, region=rg0)
     pr = c.phase_ref
-    if spec['pr_req'] is not None and pr != spec['pr_req']:
+    lock = spec['lock']
+    if spec['pr_req'] is not None and pr != spec['pr_req'] and spec['mode'] != 'at_state':
         ctx.fail(f'build|{rg0}|phase_ref-ignored', f'asked {spec["pr_req"]} got {pr}')
     if lock and pr != lock:
         ctx.fail(f'build|{rg0}|phase_ref-ignored', f'locked {lock} but phase_ref {pr}')
@@ -565,6 +575,7 @@ def prop_syn(ch, ctx):
 # mixtures
 # ---------------------------------------------------------------------------
 _mix_cache = {}
+MIX_PHASES = ('s', 'l', 'g', 'L', 'S')
 MIX_VARIANTS = ('default', 'default', 'l', 'g', 's', 'lock')
 DEFAULT_LOCK = {'N2': 'g', 'O2': 'g', 'CO2': 'g', 'Methane': 'g', 'Propane': 'g', 'Glucose': 's', 'SuccinicAcid': 's',
                 'Urea': 's', 'LacticAcid': 'l', 'Glycerol': 'l'}
@@ -573,15 +584,22 @@ DEFAULT_LOCK = {'N2': 'g', 'O2': 'g', 'CO2': 'g', 'Methane': 'g', 'Propane': 'g'
 NO_VAP = ('Glucose',)     # Tb > Tc: Hvap(Tb) is None, so only the s/l branches have complete data
 
 
-def draw_components(ch, ctx, site):
-    """Returns (chemicals, tags, mixture).  Database chemicals are cached; synthetic ones are rebuilt."""
+def draw_components(ch, ctx, site, side=None):
+    """Returns (chemicals, tags, mixture).  Database chemicals are cached; synthetic ones are rebuilt.
+    side='fluid' / 'solid' restricts database chemicals to reference phases on that side of the melting point
+    (or phase-locked), which keeps the case outside the trigger region of finding C07-F1."""
     k = ch.int('k', 1, 5)
     use_syn = ch.int('syn.count', 0, 2) if ch.bool('with_syn') else 0
     use_syn = min(use_syn, k)
     names = ch.subset('names', DB_NAMES, min_size=k - use_syn, max_size=k - use_syn)
     chems, tags = [], []
     for i, nme in enumerate(names):
-        v = ch.choice(f'variant{i}', MIX_VARIANTS)
+        variants = MIX_VARIANTS
+        if side:
+            dref = db_chemical(nme, 'default').phase_ref
+            variants = [v for v in MIX_VARIANTS if v == 'lock'
+                        or ((dref if v == 'default' else v) == 's') == (side == 'solid')]
+        v = ch.choice(f'variant{i}', variants)
         if nme in NO_VAP: v = 'lock'
         if v == 'lock':
             v = 'lock:' + (DEFAULT_LOCK.get(nme) or ch.choice(f'lockphase{i}', PHASES))
@@ -604,6 +622,8 @@ def draw_components(ch, ctx, site):
 
 def draw_mol(ch, label, k):
     mol = ch.flows(label, k)
+    if k > 1 and ch.bool(label + '.dense'):
+        mol = [v or 1.0 for v in mol]          # every component present
     if not any(mol):
         mol[ch.int(label + '.nonzero', 0, k - 1)] = 1.0
     return np.array(mol, float)
@@ -611,6 +631,7 @@ def draw_mol(ch, label, k):
 
 def pure_values(ctx, site, fn, chems, ph, T, P):
     out = []
+    ph = ph.lower()      # 'L' / 'S' (second liquid / solid) share the pure-component functors of 'l' / 's'
     for c in chems:
         pr = c.phase_ref
         xm = crosses_melting(pr, ph, is_locked(c))
@@ -622,13 +643,15 @@ def pure_values(ctx, site, fn, chems, ph, T, P):
 def prop_mixH(ch, ctx):
     chems, tags, mix = draw_components(ch, ctx, 'mix')
     k = len(chems)
-    ph = ch.choice('phase', PHASES)
+    ph = ch.choice('phase', MIX_PHASES)
     T = ch.float('T', 200.0, 600.0)
     P = ch.logfloat('P', 3, 7)
     mol = draw_mol(ch, 'mol', k)
     ncomp = int((mol > 0).sum())
     ctx.cell('mix:n>=2' if ncomp >= 2 else 'mix:n=1')
     rg = f'ncomp={"1" if ncomp == 1 else ">=2"},ph={ph}'
+    if ncomp >= 2:
+        ctx.nontriv(['mixH', tags, ph, (mol > 0).tolist()])
     Hi = pure_values(ctx, 'mix.pure.H', H_of, chems, ph, T, P)
     Ci = pure_values(ctx, 'mix.pure.Cn', lambda c, ph, T, P: Cn_of(c, ph, T), chems, ph, T, P)
     as_list = ch.bool('mol.as_list')
@@ -652,7 +675,7 @@ def prop_mixH(ch, ctx):
     # multi-phase: xH / xCn are the sums over the phases
     if ch.bool('multi'):
         ctx.cell('mix:multi')
-        ph2 = ch.choice('phase2', [p for p in PHASES if p != ph])
+        ph2 = ch.choice('phase2', [p for p in MIX_PHASES if p != ph])
         mol2 = draw_mol(ch, 'mol2', k)
         H2 = pure_values(ctx, 'mix.pure.H', H_of, chems, ph2, T, P)
         C2 = pure_values(ctx, 'mix.pure.Cn', lambda c, ph, T, P: Cn_of(c, ph, T), chems, ph2, T, P)
@@ -663,8 +686,6 @@ def prop_mixH(ch, ctx):
         ctx.check(close(xH, want, 1e-12, sc), f'mix.xH|{rg}|mismatch', f'xH = {xH!r}, sum over phases = {want!r}')
         wantC = float(mol @ Ci + mol2 @ C2)
         ctx.check(close(xC, wantC, 1e-12, abs(wantC)), f'mix.xCn|{rg}|mismatch', f'xCn = {xC!r}, sum = {wantC!r}')
-    if ncomp >= 2:
-        ctx.nontriv(['mixH', tags, ph, (mol > 0).tolist()])
 
 
 def mixing_term(mol):
@@ -674,19 +695,26 @@ def mixing_term(mol):
 
 
 def prop_mixS(ch, ctx):
-    chems, tags, mix = draw_components(ch, ctx, 'mix')
+    # finding C07-F1 (Sfus=None) makes S raise for every phase on the other side of Tm from a database chemical's
+    # reference phase; most cases are steered away from that region (the stateless db family covers it)
+    side = ch.choice('side', ('fluid', 'fluid', 'fluid', 'solid', None))
+    phases_ok = {'fluid': ('l', 'g', 'L'), 'solid': ('s', 'S'), None: MIX_PHASES}[side]
+    chems, tags, mix = draw_components(ch, ctx, 'mix', side)
     k = len(chems)
-    ph = ch.choice('phase', PHASES)
+    ctx.cell('mixS:side=' + str(side))
+    ph = ch.choice('phase', phases_ok)
     T = ch.float('T', 200.0, 600.0)
     P = ch.logfloat('P', 3, 7)
     mol = draw_mol(ch, 'mol', k)
-    if ch.int('single', 0, 4) == 0:
+    if ch.int('single', 0, 9) == 9:
         keep = ch.int('single.i', 0, k - 1)
         mol = np.array([v if i == keep else 0.0 for i, v in enumerate(mol)])
         if mol[keep] == 0: mol[keep] = 1.0
     ncomp = int((mol > 0).sum())
     ctx.cell('mix:n>=2' if ncomp >= 2 else 'mix:n=1')
     rg = f'ncomp={"1" if ncomp == 1 else ">=2"},ph={ph}'
+    if ncomp >= 2:
+        ctx.nontriv(['mixS', tags, ph, (mol > 0).tolist()])
     Si = pure_values(ctx, 'mix.pure.S', S_of, chems, ph, T, P)
     Sm = ctx.call('mix.S', mix.S, ph, mol, T, P, region=rg)
     sc = float(np.abs(mol * Si).sum()) + R * float(mol.sum())
@@ -697,7 +725,7 @@ def prop_mixS(ch, ctx):
     ctx.check(close(Sk, kf * Sm, 1e-11, kf * sc), f'mix.S.extensive|{rg}|mismatch', f'S(k n) = {Sk!r}, k S(n) = {kf * Sm!r}')
     if ch.bool('multi'):
         ctx.cell('mix:multi')
-        ph2 = ch.choice('phase2', [p for p in PHASES if p != ph])
+        ph2 = ch.choice('phase2', [p for p in phases_ok if p != ph] or [p for p in MIX_PHASES if p != ph])
         mol2 = draw_mol(ch, 'mol2', k)
         pure_values(ctx, 'mix.pure.S', S_of, chems, ph2, T, P)
         S2 = ctx.call('mix.S', mix.S, ph2, mol2, T, P, region=rg)
@@ -714,8 +742,6 @@ def prop_mixS(ch, ctx):
         kind = 'term=+sum(n*ln(x))' if close(Sm - pure, plus_nlnx, 1e-11, sc) else 'mismatch'
         ctx.fail(f'mix.S.term|{rg}|{kind}',
                  f'S_mix - sum n_i S_i = {Sm - pure!r}, -R sum n_i ln x_i = {want - pure!r} (mol={mol.tolist()}, {tags})')
-    if ncomp >= 2:
-        ctx.nontriv(['mixS', tags, ph, (mol > 0).tolist()])
 
 
 # ---------------------------------------------------------------------------
@@ -742,7 +768,7 @@ def prop_stream(ch, ctx):
     P = ch.logfloat('P', 4, 6)
     eb = ch.bool('energy_balance')
     same = ch.int('same_composition', 0, 3) == 0
-    phases = ('l', 'g') if kind == 'M' else (ch.choice('phase', ('l', 'g', 'l', 's')),)
+    phases = ('l', 'g') if kind == 'M' else (ch.choice('phase', ('l', 'g', 'l', 'g', 'l', 's')),)
     ctx.cell('stream:kind=' + kind)
     base = None
     inlets, flows = [], []
@@ -778,6 +804,8 @@ def prop_stream(ch, ctx):
     ctx.cell('stream:distinct' if distinct else 'stream:same')
     xm = int(any(crosses_melting(c.phase_ref, p, is_locked(c)) for c in th.chemicals for p in phases))
     rg = f'distinct={int(distinct)},kind={kind},eb={int(eb)},xm={xm}'
+    if distinct:
+        ctx.nontriv(['stream', pk, kind, phases, eb, [[[1 if v else 0 for v in r] for r in rows] for rows in flows]])
     S_in = [ctx.call('stream.S', lambda s=s: s.S, region=rg) for s in inlets]
     C_in = sum(s.C for s in inlets)
     Trecv = T if not eb else ch.choice('recv.T', (T, T + 17.0, T - 23.0))
@@ -800,7 +828,7 @@ def prop_stream(ch, ctx):
     if dT:
         # S(T) of a 'stable_polynomial' Cn model moves on a coarse floating-point grid (finding C07-F3);
         # a change of T by the solver tolerance can therefore move S by one grid step per mole
-        tol += 4 * sum(float(tot[pi][j]) * s_resolution(c, p, (T,)) for pi, p in enumerate(phases)
+        tol += 2 * sum(float(tot[pi][j]) * s_resolution(c, p, (T,)) for pi, p in enumerate(phases)
                        for j, c in enumerate(th.chemicals))
     ctx.metric_max('stream:dT', dT)
     ctx.check(S_out >= Ssum - tol, f'stream.mix.S|{rg}|S-decreased',
@@ -809,16 +837,16 @@ def prop_stream(ch, ctx):
     want = sum(mixing_term(tot[pi]) for pi in range(len(phases))) - sum(
         mixing_term(a[pi]) for a in arr for pi in range(len(phases)))
     ctx.metric_max('stream:dS_abs', abs(S_out - Ssum - want))
-    ctx.check(abs(S_out - Ssum - want) <= tol + 1e-10 * abs(want), f'stream.mix.S|{rg}|mismatch',
-              f'S_out - sum S_in = {S_out - Ssum!r}, ideal mixing entropy = {want!r}')
-    if distinct:
-        ctx.nontriv(['stream', pk, kind, phases, eb, [[[1 if v else 0 for v in r] for r in rows] for rows in flows]])
+    if abs(S_out - Ssum - want) > tol + 1e-10 * abs(want):
+        # name the observed wrong term (cf. mix.S.term): +sum n ln x per phase instead of -R sum n ln x
+        kind = 'term=+sum(n*ln(x))' if abs(S_out - Ssum + want / R) <= tol + 1e-10 * abs(want) else 'mismatch'
+        ctx.fail(f'stream.mix.S|{rg}|{kind}', f'S_out - sum S_in = {S_out - Ssum!r}, ideal mixing entropy = {want!r}')
 
 
 PROPS = {
-    'db': (prop_db, 6000, 300000),
-    'syn': (prop_syn, 3000, 150000),
-    'mixH': (prop_mixH, 1500, 60000),
-    'mixS': (prop_mixS, 1500, 60000),
-    'stream': (prop_stream, 1000, 40000),
+    'db': (prop_db, 6000, 200000),
+    'syn': (prop_syn, 3000, 80000),
+    'mixH': (prop_mixH, 1500, 30000),
+    'mixS': (prop_mixS, 1500, 30000),
+    'stream': (prop_stream, 1000, 20000),
 }
